@@ -37,6 +37,15 @@ fn cmp<'a, T: Deserialize<'a> + PartialEq + Debug>(out: &mut Out, name: &str, te
     }
 }
 
+/// IgnoredAny with the traits the comparison needs
+#[derive(Debug, PartialEq)]
+struct Ign;
+impl<'de> Deserialize<'de> for Ign {
+    fn deserialize<D: serde::Deserializer<'de>>(d: D) -> Result<Self, D::Error> {
+        serde::de::IgnoredAny::deserialize(d).map(|_| Ign)
+    }
+}
+
 /// the same comparison through from_slice on bytes that need not be UTF-8
 fn cmp_bytes<'a, T: Deserialize<'a> + PartialEq + Debug>(out: &mut Out, name: &str, input: &'a [u8]) {
     let a = canon(guarded(|| sonic_rs::from_slice::<T>(input)));
@@ -143,6 +152,26 @@ pub fn run_c04(out: &mut Out, tier: &str, seed: u64) {
         cmp::<BTreeMap<u64, u8>>(out, "BTreeMap<u64,u8>", &m);
         let e = format!("{{\"New\":{lit}}}");
         cmp::<Ext>(out, "Ext", &e);
+    }
+    // discarded parts of the input are validated too: an unknown member whose value is (or contains) something
+    // malformed - member names with bad escapes or raw controls, damaged literals, separators - must be rejected
+    {
+        let junk = ["{\"\\q\":1}", "{\"\\u12\":1}", "{\"\\u00g1\":1}", "{\"a\x01\":1}", "{\"k\":\"\\x\"}", "[{\"\\q\":[]}]", "{\"a\":{\"b\\\":1}}", "{\"a\":tru}", "[1 2]", "{\"a\" 1}", "{\"a\":1,}", "[\"\\ud800\"]", "{\"\\ud800\":1}", "{\"ok\":[1,2,{\"fine\":null}]}", "\"\\q\"", "01", "{\"x\":\"\x1f\"}"];
+        for j in junk {
+            for pos in 0..2 {
+                let plain = if pos == 0 { format!("{{\"zz\":{j},\"a\":7,\"b\":\"s\"}}") } else { format!("{{\"a\":7,\"b\":\"s\",\"zz\":{j}}}") };
+                cmp::<Plain>(out, "Plain", &plain);
+                cmp::<Ign>(out, "IgnoredAny", &plain);
+                let flat = format!("{{\"id\":1,\"a\":7,\"zz\":{j},\"b\":\"s\"}}");
+                cmp::<Flat>(out, "Flat", &flat);
+                let inner = format!("{{\"t\":\"A\",\"zz\":{j},\"x\":3}}");
+                cmp::<Internal>(out, "Internal", &inner);
+                let ext = format!("{{\"Rec\":{{\"a\":true,\"zz\":{j}}}}}");
+                cmp::<Ext>(out, "Ext", &ext);
+                let tup = format!("[1,{j}]");
+                cmp::<(u8, Ign)>(out, "(u8,IgnoredAny)", &tup);
+            }
+        }
     }
     // byte-like targets (and their neighbours) fed through from_slice with strings that are not UTF-8: once, twice,
     // with a str parsed in between (a member name or a String element)
